@@ -4,7 +4,7 @@ import random
 import shutil
 import tempfile
 
-from verif import build
+from verif import build, core
 from verif.gen import mpi
 from verif.gen import rma as G
 from verif.oracles import rma as O
@@ -197,7 +197,10 @@ def run(ctx):
     def one(job):
         label, prog = job
         res = execute(prog, exe, tmp, label.replace(":", "_"))
-        v = assess(ctx, prog, res, label)
+        try:
+            v = assess(ctx, prog, res, label)
+        except O.BadProgram as e:
+            raise core.HarnessFailure("%s: the generator produced a program the model refuses: %s" % (label, e))
         if nontrivial(prog, v):
             ctx.nontrivial(O.script(prog))
             ctx.count("programs_fully_judged")
